@@ -1,8 +1,8 @@
 use super::db_ops::store_user_in_db;
 use super::storage::AuthStorage;
 use super::types::{
-    AuthError, AuthResult, MAX_SECRET_KEY_LENGTH, MAX_USER_ID_LENGTH, PermissionCache, User,
-    UserCache, UserKey,
+    AuthError, AuthResult, BYPASS_USER_ID, MAX_SECRET_KEY_LENGTH, MAX_USER_ID_LENGTH,
+    NO_AUTH_USER_ID, PermissionCache, User, UserCache, UserKey,
 };
 use crate::shared::config::CONFIG;
 use std::collections::HashMap;
@@ -26,6 +26,12 @@ fn validate_user_id(user_id: &str) -> AuthResult<()> {
         .chars()
         .all(|c| c.is_alphanumeric() || c == '_' || c == '-')
     {
+        return Err(AuthError::InvalidUserId);
+    }
+
+    // The ids the frontends hand to the handlers when authentication is bypassed or not
+    // configured must never name a real account: handlers skip their checks for them.
+    if user_id == BYPASS_USER_ID || user_id == NO_AUTH_USER_ID {
         return Err(AuthError::InvalidUserId);
     }
 
